@@ -107,7 +107,50 @@ func LoadProgram(repoDir string, patterns []string) (*Program, error) {
 			}
 		}
 	}
+	p.expandTemplates()
 	return p, nil
+}
+
+// expandTemplates: a contract "func T.* implementing pkg.Iface" becomes one contract per method of the
+// interface (looked up in the type-checked program, so methods added later are covered automatically).
+func (p *Program) expandTemplates() {
+	for _, key := range sortedKeys(p.CS.Funcs) {
+		fc := p.CS.Funcs[key]
+		if fc.Implementing == "" {
+			continue
+		}
+		delete(p.CS.Funcs, key)
+		name := fc.Implementing
+		i := strings.LastIndex(name, ".")
+		var pkg *types.Package
+		if i >= 0 {
+			pkg = p.lookupPkg(fc.PkgPath, name[:i])
+			name = name[i+1:]
+		} else if pk, ok := p.ByPath[fc.PkgPath]; ok {
+			pkg = pk.Types
+		}
+		if pkg == nil {
+			p.CS.Errors = append(p.CS.Errors, fmt.Sprintf("%s:%d: unknown package in %q", fc.File, fc.Line, fc.Implementing))
+			continue
+		}
+		obj := pkg.Scope().Lookup(name)
+		if obj == nil {
+			p.CS.Errors = append(p.CS.Errors, fmt.Sprintf("%s:%d: unknown interface %q", fc.File, fc.Line, fc.Implementing))
+			continue
+		}
+		it, ok := obj.Type().Underlying().(*types.Interface)
+		if !ok {
+			p.CS.Errors = append(p.CS.Errors, fmt.Sprintf("%s:%d: %q is not an interface", fc.File, fc.Line, fc.Implementing))
+			continue
+		}
+		prefix := strings.TrimSuffix(fc.Name, "*")
+		for m := 0; m < it.NumMethods(); m++ {
+			cp := *fc
+			cp.Implementing = ""
+			cp.Name = prefix + it.Method(m).Name()
+			p.CS.Funcs[fc.PkgPath+"."+cp.Name] = &cp
+		}
+	}
 }
 
 // funcKey: "pkgpath.Name" for functions, "pkgpath.(*T).M" / "pkgpath.T.M" for methods, closures "pkgpath.F$1".
